@@ -245,6 +245,10 @@ func storeIntoMemory(interp *Interpreter, offset int, memIndex uint32, immediate
 	if memIndex < uint32(1<<16) { // 0.7.2  A.8 check memory > 2^16
 		return ExitPanic
 	}
+	if uint64(memIndex)+uint64(offset) > 1<<32 {
+		// addresses are taken modulo 2^32: the access wraps around into the zone below 2^16
+		return ExitPanic
+	}
 
 	pageNum := memIndex / ZP
 	pageIndex := memIndex % ZP
@@ -295,6 +299,10 @@ func storeIntoMemory(interp *Interpreter, offset int, memIndex uint32, immediate
 func loadFromMemory(interp *Interpreter, offset uint32, vx uint32) (uint64, ExitReason) {
 	mem := interp.Memory
 	if vx < uint32(1<<16) { // 0.7.2  A.8 check memory > 2^16
+		return 0, ExitPanic
+	}
+	if uint64(vx)+uint64(offset) > 1<<32 {
+		// addresses are taken modulo 2^32: the access wraps around into the zone below 2^16
 		return 0, ExitPanic
 	}
 
